@@ -15,7 +15,7 @@ type PhaseStats struct {
 }
 
 func NewPhaseStats(st *Stats) *PhaseStats { return &PhaseStats{st: st} }
-func (m *PhaseStats) Name() string         { return "phasestats" }
+func (m *PhaseStats) Name() string        { return "phasestats" }
 
 func (m *PhaseStats) BeginBlockExit(c *Chain, ctx sdk.Context, err error) {
 	m.st.Count("beginblock.evals")
